@@ -464,7 +464,7 @@ def run_shard(ctx):
     def test(case):
         check_case(ctx, case)
 
-    runner.drive(ctx, test, ctx.n(4800, 60000))
+    runner.drive(ctx, test, ctx.n(16000, 120000))
 
 
 def replay(ctx, case):
